@@ -236,11 +236,12 @@ type streamScenario struct {
 	Run      demuxRun   `json:"run,omitempty"`
 	Pred     *M         `json:"pred,omitempty"`
 	// family-specific
-	Ks     []int   `json:"ks,omitempty"`     // rewind points
-	Merges [][]int `json:"merges,omitempty"` // alternative packet orders (indices into pkts)
-	Skip   string  `json:"skip,omitempty"`   // skipper predicate
-	Parser string  `json:"parser,omitempty"` // packets parser mode
-	Fail   []int   `json:"fail,omitempty"`   // reader failure offsets
+	Ks       []int         `json:"ks,omitempty"`     // rewind points
+	Merges   [][]int       `json:"merges,omitempty"` // alternative packet orders (indices into pkts)
+	Skip     string        `json:"skip,omitempty"`   // skipper predicate
+	Parser   string        `json:"parser,omitempty"` // packets parser mode
+	Fail     []int         `json:"fail,omitempty"`   // reader failure offsets
+	Variants []variantSpec `json:"variants,omitempty"`
 }
 
 func unitEvents(bs *builtStream, rec *recorder) {
@@ -349,4 +350,98 @@ func runPair(sc *streamScenario, rec *recorder) {
 	}
 	one("clean", clean)
 	one("fault", fault)
+}
+
+// ---------- C07: merges, insertions, single-PID corruptions ----------
+
+type variantSpec struct {
+	T     string `json:"t"`               // merge | insert | corrupt
+	Order []int  `json:"order,omitempty"` // merge: permutation of packet indices
+	At    int    `json:"at,omitempty"`    // insert: position
+	K     string `json:"k,omitempty"`     // insert: null | afonly | tei
+	PID   int    `json:"pid,omitempty"`   // insert: PID of the afonly/tei packet; corrupt: the corrupted PID
+	Mode  string `json:"mode,omitempty"`  // corrupt: dropall | dropsome | garbage | tei
+}
+
+func runMerge(sc *streamScenario, vs []variantSpec, rec *recorder) {
+	bs := buildStream(sc.Units, sc.Pkts, sc.PMTPIDs, sc.Seed, sc.Complete)
+	rec.ev(M{"ev": "reset", "t": sc.SID, "kind": "merge", "npkts": len(bs.pkts)})
+	unitEvents(bs, rec)
+	rg := newRng(sc.Seed ^ 0x77)
+	pk := func(i int) []byte { return bs.bytes[i*188 : (i+1)*188] }
+	run := 0
+	demuxRunN := func(stream []byte, v variantSpec) {
+		rec.ev(M{"ev": "variant", "r": run, "t": v.T, "cpid": v.PID, "mode": v.Mode, "k": v.K})
+		dmx := newDemuxer(bytes.NewReader(stream), sc.Run)
+		r := run
+		drainData(dmx, len(stream)/188+len(bs.units)*4+10, func() int { return 0 }, func(e M) {
+			e["run"] = r
+			rec.ev(e)
+		})
+		run++
+	}
+	var base []byte
+	for i := range bs.pkts {
+		base = append(base, pk(i)...)
+	}
+	for rep := 0; rep < 3; rep++ { // the same input three times: map-iteration or pool dependence shows as a difference
+		demuxRunN(base, variantSpec{T: "base", PID: -1})
+	}
+	for _, v := range vs {
+		var s []byte
+		switch v.T {
+		case "merge":
+			if len(v.Order) != len(bs.pkts) {
+				fatal("merge order has %d entries for %d packets", len(v.Order), len(bs.pkts))
+			}
+			for _, i := range v.Order {
+				s = append(s, pk(i)...)
+			}
+			v.PID = -1
+		case "insert":
+			f := pktSpec{PID: v.PID, K: v.K, CC: rg.intn(16)}
+			fb := packetBytes(&f, nil, rg)
+			for i := range bs.pkts {
+				if i == v.At {
+					s = append(s, fb...)
+				}
+				s = append(s, pk(i)...)
+			}
+			if v.At >= len(bs.pkts) {
+				s = append(s, fb...)
+			}
+			v.PID = -1
+		case "corrupt":
+			for i := range bs.pkts {
+				p := &bs.pkts[i]
+				if p.PID != v.PID || p.K == "null" {
+					s = append(s, pk(i)...)
+					continue
+				}
+				switch v.Mode {
+				case "dropall":
+				case "dropsome":
+					if rg.intn(2) == 0 {
+						s = append(s, pk(i)...)
+					}
+				case "garbage":
+					b := append([]byte(nil), pk(i)...)
+					copy(b[4:], rg.bytes(184))
+					b[3] = b[3]&0xcf | 0x10
+					s = append(s, b...)
+				case "tei":
+					b := append([]byte(nil), pk(i)...)
+					if rg.intn(2) == 0 {
+						b[1] |= 0x80
+					}
+					s = append(s, b...)
+				default:
+					fatal("unknown corruption mode %q", v.Mode)
+				}
+			}
+		default:
+			fatal("unknown variant %q", v.T)
+		}
+		demuxRunN(s, v)
+	}
 }
